@@ -317,6 +317,7 @@ def gen_case(seed, tier, prop):
                       p_late=rng.choice([0, 0, 0.2]), p_stall=rng.choice([0, 0, 0.05])).to_json()
     return {"engine": "permits", "prop": prop, "kind": kind, "cap": cap, "maxv": maxv, "tasks": tasks,
             "ext": ext, "loop": loop, "sched_seed": rng.getrandbits(32),
+            "cm": rng.random() < 0.3,           # enter/leave through __aenter__/__aexit__ (async with) instead of acquire/release
             "outside": rng.random() < 0.2}      # the primitive is created before the event loop exists (adapter classes)
 
 
@@ -580,6 +581,27 @@ class PermitRun:
             elif op == "rel_extra":
                 self.do_release(tid, None, extra=True)
 
+    async def enter(self, p):
+        """acquire(), or - in cases flagged `cm` - what `async with p:` does on entry"""
+        if self.case.get("cm"):
+            await p.__aenter__()
+        else:
+            await p.acquire()
+
+    def leave(self, p):
+        """release(), or - in cases flagged `cm` - what `async with p:` does on exit (the coroutine is driven by hand:
+        leaving the block releases without waiting)"""
+        if not self.case.get("cm"):
+            p.release()
+            return
+        coro = p.__aexit__(None, None, None)
+        try:
+            coro.send(None)
+        except StopIteration:
+            return
+        coro.close()
+        raise AssertionError("__aexit__ of a synchronisation primitive suspended")
+
     def who_obj(self, who):
         return who   # borrower tokens are plain strings; tasks borrow as themselves
 
@@ -596,7 +618,7 @@ class PermitRun:
                 if behalf:
                     await p.acquire_on_behalf_of(who)
                 else:
-                    await p.acquire()
+                    await self.enter(p)
             except RuntimeError:
                 self.rec("reacquire_refused", tid, who)
                 self.probes["reacquire_refused"] = self.probes.get("reacquire_refused", 0) + 1
@@ -618,7 +640,7 @@ class PermitRun:
             if behalf:
                 await p.acquire_on_behalf_of(who)
             else:
-                await p.acquire()
+                await self.enter(p)
         except Exception as exc:
             del self.in_acquire[tid]
             self.model.acq_end(who, False)
@@ -695,7 +717,7 @@ class PermitRun:
                 return
             allowed = self.model.sem_release_allowed()
             try:
-                p.release()
+                self.leave(p)
             except ValueError:
                 if allowed is True:
                     self.v("misuse", "release() raised ValueError although value < max_value")
@@ -728,7 +750,7 @@ class PermitRun:
             if behalf:
                 p.release_on_behalf_of(who)
             else:
-                p.release()
+                self.leave(p)
         except RuntimeError:
             if legit:
                 self.v("misuse", f"release of {who!r} by its holder (task {tid}) was refused")
